@@ -23,6 +23,7 @@ TFH = os.path.join(HARNESS, "target", "release", "tfh")
 ALLOWED_AXIOMS = {"propext", "Classical.choice", "Quot.sound"}
 ALT_ENV = {"RAYON_NUM_THREADS": "3"}
 ALT_TAG = "RAYON_NUM_THREADS=3"
+DERIVE_CORPUS_PROPS = {"C14"}
 FORBIDDEN = re.compile(r"\b(sorry|admit|native_decide|bv_decide|implemented_by|unsafe)\b|^axiom\s|maxHeartbeats 0")
 
 sys.path.insert(0, os.path.join(VERIF, "tools"))
@@ -251,7 +252,7 @@ def forbidden_tokens():
     return hits
 
 
-def cargo_build():
+def cargo_build(prop=None):
     with Lock("cargo"):
         lock_src = "/repo/Cargo.lock"
         lock_dst = os.path.join(HARNESS, "Cargo.lock")
@@ -259,6 +260,11 @@ def cargo_build():
             with open(lock_src) as s, open(lock_dst, "w") as d:
                 d.write(s.read())
         rc, out, err = sh(["cargo", "build", "--release", "--offline"], cwd=HARNESS, timeout=3600)
+        if rc != 0 and prop is not None and prop not in DERIVE_CORPUS_PROPS:
+            # the derive corpus (C14) may be what no longer compiles: the other properties do not need it
+            rc2, out2, err2 = sh(["cargo", "build", "--release", "--offline", "--no-default-features"], cwd=HARNESS, timeout=3600)
+            if rc2 == 0:
+                return 0, "built without the derive corpus (feature derive_corpus): " + (out + err)[-600:]
     return rc, out + err
 
 
@@ -354,8 +360,10 @@ def run_check(prop, tier, seed):
             notes.append("leanchecker re-checked " + module)
 
     # ---- 4. harness against the current working tree
-    crc, clog = cargo_build()
+    crc, clog = cargo_build(prop)
     harness_ok = crc == 0
+    if harness_ok and clog.startswith("built without the derive corpus"):
+        notes.append(clog)
     if not harness_ok:
         notes.append("harness build failed: " + clog[-3000:])
 
